@@ -3,8 +3,10 @@ package c05x
 // Record types and projections of the Executer-level C05 driver (cmd/c05e).
 
 import (
+	"bytes"
 	"crypto/sha256"
 	"encoding/json"
+	"sort"
 	"strconv"
 	"strings"
 
@@ -57,8 +59,12 @@ type ETwin struct {
 	FhBPre  int64    `json:"fh_b_pre"`
 	FhBPost int64    `json:"fh_b_post"`
 	Keep    int      `json:"keep"`
+	A0      []KV     `json:"a0"` // node A just before B is applied
+	T0      []KV     `json:"t0"` // twin after replaying the surviving chain, before B'
 	A       []KV     `json:"a"`
 	T       []KV     `json:"t"`
+	FhB2A   int64    `json:"fh_b2_post_a"` // finalized height of A after B'
+	FhB2T   int64    `json:"fh_b2_post_t"`
 	ErrA    []string `json:"err_a"`
 	ErrT    []string `json:"err_t"`
 	TipA    *TipObs  `json:"tip_a"`
@@ -123,17 +129,78 @@ func DumpCanon(d *db.DB) (out []KV, nonCanon int) {
 		if !strings.HasPrefix(kv[0], "33") {
 			continue
 		}
-		diff := &diffdb.Diff{}
-		if err := diff.Decode(Unhex(kv[1])); err != nil {
-			continue
+		raw := Unhex(kv[1])
+		canon, ok := CanonDiffBytes(raw)
+		if !ok {
+			continue // not a well-formed record: left as stored, the checks will see it
 		}
-		SortDiff(diff)
-		if c := Hex(diff.Encode()); c != kv[1] {
+		if c := Hex(canon); c != kv[1] {
 			out[i][1] = c
 			nonCanon++
 		}
 	}
 	return out, nonCanon
+}
+
+// CanonDiffBytes reorders a stored diff record WITHOUT the implementation's codec: the record is a sequence of
+// length-delimited fields (tag = fieldNumber<<3|2, varint length, payload); the entries of each field number 1..3 are
+// sorted by their key (field 1: the payload itself; fields 2, 3: the payload's own first field) and re-emitted byte for
+// byte, field 1 first. Anything else (other wire types, field numbers, truncated input) makes it answer false.
+func CanonDiffBytes(raw []byte) ([]byte, bool) {
+	type entry struct{ key, whole []byte }
+	uvarint := func(b []byte) (uint64, int) {
+		var x uint64
+		for i := 0; i < len(b) && i < 10; i++ {
+			x |= uint64(b[i]&0x7f) << (7 * uint(i))
+			if b[i] < 0x80 {
+				return x, i + 1
+			}
+		}
+		return 0, 0
+	}
+	field := func(b []byte) (num uint64, payload, whole []byte, ok bool) {
+		tag, n := uvarint(b)
+		if n == 0 || tag&7 != 2 {
+			return 0, nil, nil, false
+		}
+		ln, m := uvarint(b[n:])
+		if m == 0 || uint64(len(b)-n-m) < ln {
+			return 0, nil, nil, false
+		}
+		end := n + m + int(ln)
+		return tag >> 3, b[n+m : end], b[:end], true
+	}
+	groups := map[uint64][]entry{}
+	for rest := raw; len(rest) > 0; {
+		num, payload, whole, ok := field(rest)
+		if !ok || num < 1 || num > 3 {
+			return nil, false
+		}
+		key := payload
+		if num != 1 {
+			key = []byte{}
+			if len(payload) > 0 {
+				kn, kp, _, ok := field(payload)
+				if !ok {
+					return nil, false
+				}
+				if kn == 1 {
+					key = kp
+				}
+			}
+		}
+		groups[num] = append(groups[num], entry{key, whole})
+		rest = rest[len(whole):]
+	}
+	out := make([]byte, 0, len(raw))
+	for num := uint64(1); num <= 3; num++ {
+		es := groups[num]
+		sort.SliceStable(es, func(i, j int) bool { return bytes.Compare(es[i].key, es[j].key) < 0 })
+		for _, e := range es {
+			out = append(out, e.whole...)
+		}
+	}
+	return out, true
 }
 
 // VotesDigest = sha256 of a canonical JSON of the decoded BFTVotes read through a (fresh, never committed) staged view.
